@@ -77,9 +77,27 @@ fn form(name: &str, text: &'static str, extra: usize) -> Value {
                 let e = Flat::from_deepex(Deep::parse(text)?)?;
                 json!({"vars": names_json(e.var_names()), "evals": evals_flat(&e, extra)})
             }
-            _ => {
+            "f2d" => {
                 let e = Flat::parse(text)?.to_deepex()?;
                 json!({"vars": names_json(e.var_names()), "evals": evals_deep(&e, extra)})
+            }
+            // listed variables that do not occur (as a derivative keeps the list of its antiderivative): `e + g*0`, one
+            // ghost sorting before and one after the names of the pool
+            _ => {
+                let mut d = Deep::parse(text)?;
+                let ghosts = ["!g", "\u{3c9}\u{3c9}9"];
+                for g in ghosts {
+                    let gtext: &'static str = Box::leak(format!("{{{g}}}").into_boxed_str());
+                    let zero = (Deep::parse(gtext)? * Deep::parse("0")?)?;
+                    d = (d + zero)?;
+                }
+                let gj = Value::Array(ghosts.iter().map(|g| cps(g)).collect());
+                if name == "deep_g" {
+                    json!({"vars": names_json(d.var_names()), "evals": evals_deep(&d, extra), "ghost": gj})
+                } else {
+                    let e = Flat::from_deepex(d)?;
+                    json!({"vars": names_json(e.var_names()), "evals": evals_flat(&e, extra), "ghost": gj})
+                }
             }
         })
     });
@@ -115,14 +133,15 @@ pub fn main(args: &[String]) -> i32 {
         let Some(tv) = rec.get("text") else { return };
         n += 1;
         let text: &'static str = Box::leak(uncps(tv).into_boxed_str());
-        let forms: Vec<Value> = ["flat", "flat_wo", "deep", "d2f", "f2d"].iter().map(|f| form(f, text, extra)).collect();
+        let forms: Vec<Value> = ["flat", "flat_wo", "deep", "d2f", "f2d", "deep_g", "flat_g"].iter().map(|f| form(f, text, extra)).collect();
         runs += forms.iter().map(|f| f.get("evals").and_then(|e| e.as_array()).map(|a| a.len()).unwrap_or(1) as u64).sum::<u64>();
         // identical to the TLC expectation: variable lists equal, strict ok exactly at len = n with the expected
         // tree, relaxed ok exactly from len >= n on
         let same = rec.get("vars").map(|ev| {
             let nv = ev.as_array().map(|a| a.len()).unwrap_or(0);
             forms.iter().all(|f| {
-                f["outcome"] == "ok"
+                f.get("ghost").is_none()
+                    && f["outcome"] == "ok"
                     && f["vars"] == *ev
                     && f["evals"].as_array().unwrap().iter().all(|e| {
                         let len = e["len"].as_u64().unwrap() as usize;
